@@ -11,6 +11,7 @@ for l in open('/verif/properties.jsonl'):
 tmpl = open('/verif/tools/seed_task_template.txt').read().replace('@N@', n)
 for p in sorted(props):
     wt = '/tmp/wt/' + p
+    if not os.path.isdir(wt): continue
     subprocess.run('git checkout -q -- . && git clean -fdq', shell=True, cwd=wt)
     shutil.rmtree(wt + '/OUT', ignore_errors=True)
     os.makedirs(wt + '/OUT')
